@@ -63,6 +63,37 @@ fn replay(args: &[String]) -> i32 {
     let mut wr = BufWriter::new(std::fs::File::create(&out).expect("create output"));
     let mut nbeh = 0u64;
     let mut nsteps = 0u64;
+    // Watchdog: an operation that burns 90 s of CPU time (they take milliseconds; CPU time, so
+    // machine load does not matter) has sent the tree spinning. The process reports which
+    // step of which behaviour and exits with status 4; the driver turns that into a verdict.
+    static TICK: std::sync::atomic::AtomicU64 = std::sync::atomic::AtomicU64::new(0);
+    static CUR_BEH: std::sync::atomic::AtomicU64 = std::sync::atomic::AtomicU64::new(0);
+    static CUR_STEP: std::sync::atomic::AtomicU64 = std::sync::atomic::AtomicU64::new(0);
+    fn cpu_secs() -> f64 {
+        let mut ts = libc::timespec { tv_sec: 0, tv_nsec: 0 };
+        // SAFETY: plain clock_gettime on a local timespec
+        unsafe {
+            libc::clock_gettime(libc::CLOCK_PROCESS_CPUTIME_ID, &mut ts);
+        }
+        ts.tv_sec as f64 + ts.tv_nsec as f64 / 1e9
+    }
+    std::thread::spawn(|| {
+        use std::sync::atomic::Ordering::Relaxed;
+        let mut last = TICK.load(Relaxed);
+        let mut since = cpu_secs();
+        loop {
+            std::thread::sleep(std::time::Duration::from_millis(500));
+            let t = TICK.load(Relaxed);
+            let now = cpu_secs();
+            if t != last {
+                last = t;
+                since = now;
+            } else if now - since > 90.0 {
+                eprintln!("HANG beh={} step={}", CUR_BEH.load(Relaxed), CUR_STEP.load(Relaxed));
+                std::process::exit(4);
+            }
+        }
+    });
     let share_pairs = args.iter().any(|a| a == "--share-pairs");
     // one write() per step on the trace file: the step boundaries of an strace recording
     let flush_steps = args.iter().any(|a| a == "--flush-steps");
@@ -153,7 +184,11 @@ fn replay(args: &[String]) -> i32 {
         i += group.len();
         let mut sessions = vec![];
         let mut share: Option<model::Shared> = None;
+        let lns: Vec<usize> = group.iter().map(|(ln, _)| *ln).collect();
         for (ln, v) in &group {
+            CUR_BEH.store(*ln as u64, std::sync::atomic::Ordering::Relaxed);
+            CUR_STEP.store(0, std::sync::atomic::Ordering::Relaxed);
+            TICK.fetch_add(1, std::sync::atomic::Ordering::Relaxed);
             match mk(*ln, v, share.clone()) {
                 Ok((sess, ops, reset, dir)) => {
                     if share_pairs {
@@ -177,10 +212,13 @@ fn replay(args: &[String]) -> i32 {
         // interleave the behaviours of the group step by step (they share cache / fd table)
         let maxlen = sessions.iter().map(|s| s.1.len()).max().unwrap_or(0);
         for j in 0..maxlen {
-            for s in &mut sessions {
+            for (si, s) in sessions.iter_mut().enumerate() {
                 if s.4 || j >= s.1.len() {
                     continue;
                 }
+                CUR_BEH.store(lns[si] as u64, std::sync::atomic::Ordering::Relaxed);
+                CUR_STEP.store(j as u64 + 1, std::sync::atomic::Ordering::Relaxed);
+                TICK.fetch_add(1, std::sync::atomic::Ordering::Relaxed);
                 let op = s.1[j].clone();
                 let (rec, stop) = step(&mut s.0, &op);
                 if flush_steps {
